@@ -189,3 +189,50 @@ vt_proof_avx2! { unwind = 22; fn c30_avx2_window_20() {
     kani::cover!(n == 20 && pref[7] == target && pref[16] == target, "w:tie_across_two_batches");
     window_ok(&pref, n, target, l, r);
 }}
+
+// ---------------------------------------------------------------- long keys: ties of the full 4-byte prefix
+fn linear5<const N: usize>(cells: &[Cell<5, 1>; N], n: usize, probe: &[u8]) -> SearchResult {
+    let mut i = 0;
+    while i < N {
+        if i < n {
+            match crate::common::lex_cmp(cells[i].k(), probe) {
+                core::cmp::Ordering::Equal => return SearchResult::Found(i),
+                core::cmp::Ordering::Greater => return SearchResult::NotFound(i),
+                _ => {}
+            }
+        }
+        i += 1;
+    }
+    SearchResult::NotFound(n)
+}
+
+// @vt prop=C30 tier=quick feat=sp bound="find_key_simd (CPU model: no AVX2) on every valid leaf of 0..=4 cells with keys of 4..=5 arbitrary bytes (so that full 4-byte prefixes can tie and the 5th byte decides), every probe of 3..=5 bytes" outside="more cells; longer keys" timeout=1800 mem=20
+vt_proof! { unwind = 9; fn c30_find_key_scalar_long_keys() {
+    let mut page = [0u8; PAGE_SIZE];
+    let cells: [Cell<5, 1>; 4] = core::array::from_fn(|_| Cell::any(4));
+    let n: usize = kani::any(); kani::assume(n <= 4);
+    let mut i = 1;
+    while i < 4 { if i < n { kani::assume(pg::lex_lt(cells[i - 1].k(), cells[i].k())); } i += 1; }
+    pg::write_leaf(&mut page, &cells, n, PAGE_SIZE, 0, 0);
+    let probe: [u8; 5] = kani::any();
+    let pl: usize = kani::any(); kani::assume(pl >= 3 && pl <= 5);
+    let got = find_key_simd(&page, &probe[..pl], n);
+    let want = linear5(&cells, n, &probe[..pl]);
+    kani::cover!(n == 4 && cells[1].key[0] == cells[2].key[0] && cells[1].key[1] == cells[2].key[1] && cells[1].key[2] == cells[2].key[2] && cells[1].key[3] == cells[2].key[3] && matches!(got, SearchResult::Found(2)), "w:found_behind_a_full_prefix_tie");
+    assert!(got == want, "role=find_key_equals_linear_scan");
+}}
+
+// @vt prop=C30 tier=thorough feat=sp bound="find_key_simd (CPU model: AVX2) on every valid leaf of exactly 8 cells with keys of 4..=5 arbitrary bytes, every probe of 3..=5 bytes" outside="other cell counts; longer keys" timeout=5400 mem=30
+vt_proof_avx2! { unwind = 11; fn c30_find_key_avx2_long_keys_8() {
+    let mut page = [0u8; PAGE_SIZE];
+    let cells: [Cell<5, 1>; 8] = core::array::from_fn(|_| Cell::any(4));
+    let mut i = 1;
+    while i < 8 { kani::assume(pg::lex_lt(cells[i - 1].k(), cells[i].k())); i += 1; }
+    pg::write_leaf(&mut page, &cells, 8, PAGE_SIZE, 0, 0);
+    let probe: [u8; 5] = kani::any();
+    let pl: usize = kani::any(); kani::assume(pl >= 3 && pl <= 5);
+    let got = find_key_simd(&page, &probe[..pl], 8);
+    let want = linear5(&cells, 8, &probe[..pl]);
+    kani::cover!(matches!(got, SearchResult::Found(7)), "w:found_last_slot");
+    assert!(got == want, "role=find_key_equals_linear_scan");
+}}
